@@ -221,7 +221,11 @@ impl ObservationBagSync {
             "bucket_counts length invariant must hold"
         );
 
+        #[cfg(folo_verif)]
+        crate::verif_hook::point("bag.copy_from:count.store");
         self.count.store(data.count.get(), SYNC_BAG_ACCESS_ORDERING);
+        #[cfg(folo_verif)]
+        crate::verif_hook::point("bag.copy_from:sum.store");
         self.sum.store(data.sum.get(), SYNC_BAG_ACCESS_ORDERING);
 
         let dirty = data.take_dirty_buckets();
@@ -241,6 +245,8 @@ impl ObservationBagSync {
             // `self.bucket_counts.len() == data.bucket_counts.len()`, so `i` is also
             // in bounds for `self.bucket_counts`.
             let target = unsafe { self.bucket_counts.get_unchecked(i) };
+            #[cfg(folo_verif)]
+            crate::verif_hook::point("bag.copy_from:bucket.store");
             target.store(source.get(), SYNC_BAG_ACCESS_ORDERING);
         }
     }
@@ -276,6 +282,8 @@ impl ObservationBagSync {
             // `self.bucket_counts.len() == data.bucket_counts.len()`, so `i` is
             // also in bounds for `self.bucket_counts`.
             let target = unsafe { self.bucket_counts.get_unchecked(i) };
+            #[cfg(folo_verif)]
+            crate::verif_hook::point("bag.copy_from:overflow-range-bucket.store");
             target.store(source.get(), SYNC_BAG_ACCESS_ORDERING);
         }
 
@@ -419,7 +427,11 @@ impl Observations for ObservationBagSync {
         let sum_increment = magnitude.wrapping_mul(count_i64);
 
         // These operations always use wrapping arithmetic.
+        #[cfg(folo_verif)]
+        crate::verif_hook::point("bag.insert:count.fetch_add");
         self.count.fetch_add(count_u64, SYNC_BAG_ACCESS_ORDERING);
+        #[cfg(folo_verif)]
+        crate::verif_hook::point("bag.insert:sum.fetch_add");
         self.sum.fetch_add(sum_increment, SYNC_BAG_ACCESS_ORDERING);
 
         // Counter events (no buckets) are a common API shape, not a rare case,
@@ -471,6 +483,8 @@ impl Observations for ObservationBagSync {
         //
         // SAFETY: Type invariant: there are always the same number of bucket counts
         // as there are bucket magnitudes.
+        #[cfg(folo_verif)]
+        crate::verif_hook::point("bag.insert:bucket.fetch_add");
         unsafe { self.bucket_counts.get_unchecked(bucket_index) }
             .fetch_add(count_u64, SYNC_BAG_ACCESS_ORDERING);
     }
